@@ -42,8 +42,20 @@ RunOK(its) ==
         /\ its[i].exit = ExitOf(its[i])
         /\ (its[i].exit = 0) <=> (i = Len(its))
 
-Judge(e) ==
+\* "hold": one key object, many calls, one message buffer rewritten in place, every result kept by the caller
+\* and looked at again after the last call.  Sign and Seal are functions of (key, message content at the call):
+\* what they returned is the caller's and does not change, and does not depend on earlier calls.
+JudgeHold(e) ==
   IF e.res # "ok" THEN <<"signing failed">>
+  ELSE When(~e.keptsigsame, "a signature returned earlier was changed by a later call")
+       \o When(~e.keptsealsame, "a sealed message returned earlier was changed by a later call on the same key")
+       \o When(~e.allverify, "a signature does not verify for the message as it was when Sign was called (message buffer reused by the caller)")
+       \o When(~e.allopen, "a sealed message does not open to the message as it was when Seal was called")
+       \o When(~e.sealissigmsg, "a sealed message is not Sign(m) || m")
+
+Judge(e) ==
+  IF e.ev = "hold" THEN JudgeHold(e)
+  ELSE IF e.res # "ok" THEN <<"signing failed">>
   ELSE When(~e.verify, "the signature returned by Sign does not verify under the key's public key")
        \o When(e.verifyother, "the signature verifies for a different message")
        \o When(e.verifyotherkey, "the signature verifies under another key")
@@ -54,7 +66,7 @@ Judge(e) ==
        \o When(~e.msgintact, "signing modified the caller's message")
 
 DriftOf(e) ==
-  IF e.res # "ok" THEN <<>>
+  IF e.ev = "hold" \/ e.res # "ok" THEN <<>>
   ELSE When(~RunOK(e.iters), "rejection loop of Sign is not a run of DilithiumSign.tla for the logged norms")
        \o When(e.sealiters # e.iters, "Seal and Sign took different runs of the rejection loop for the same message")
 
